@@ -28,7 +28,7 @@ Definition find_fn (s : state) (f : nat) : option (list nat) :=
 Definition body_of (s : state) (f : nat) : option (list nat) :=
   match find (fun p => Nat.eqb (fst p) f) (bodies s) with Some p => Some (snd p) | None => None end.
 
-(* unmet_forward: depth-first through the implementations of fulfilled declarations; fuel = number of declarations + 1 *)
+(* unmet_forward: depth-first through the implementations of fulfilled declarations *)
 Fixpoint unmet (fuel : nat) (s : state) (r : nat) : bool :=
   match fuel with
   | O => true
@@ -38,7 +38,9 @@ Fixpoint unmet (fuel : nat) (s : state) (r : nat) : bool :=
       | Some e => if fulfilled e then existsb (unmet f s) (impl_reqs e) else true
       end
   end.
-Definition unmet_now (s : state) (r : nat) : bool := unmet (S (length (fwds s))) s r.
+(* the implementation that fulfils r only depends on declarations with smaller names (a callee is smaller than its caller),
+   so r + 1 levels are enough *)
+Definition unmet_now (s : state) (r : nat) : bool := unmet (S r) s r.
 
 (* requirements carried by a reference to the name c; None = the name is not declared *)
 Definition reqs_of (s : state) (c : nat) : option (list nat) :=
@@ -92,8 +94,8 @@ Fixpoint safe (fuel : nat) (s : state) (f : nat) : bool :=
   | O => false
   | S k => match body_of s f with Some cs => forallb (safe k s) cs | None => false end
   end.
-(* bodies are acyclic in the programs considered (a callee has a smaller name), so fuel = number of bodies + 1 is enough *)
-Definition safe_now (s : state) (f : nat) : bool := safe (S (length (bodies s))) s f.
+(* bodies are acyclic in the programs considered (a callee has a smaller name), so f + 1 levels are enough *)
+Definition safe_now (s : state) (f : nat) : bool := safe (S f) s f.
 
 (* the gate is right on a run: every accepted invocation was safe when it was made and every rejected one was not *)
 Fixpoint gate_right (s : state) (es : list event) : bool :=
